@@ -582,16 +582,32 @@ impl PModel {
         }
     }
 
-    /// the single collected character that selects the dispatch row; more than one collected
-    /// character is outside what the properties pin down
-    fn selector(&mut self) -> Option<char> {
-        if self.inter.len() > 1 {
-            self.unspecified = true;
-        }
+    /// The collected character that selects the dispatch row.  With more than one collected
+    /// character (marker + intermediate, two intermediates) no implemented sequence exists: such a
+    /// sequence is inert.  The pinned tree keys on the LAST collected character only; where that
+    /// reading would select an implemented function (e.g. CSI ? ! p) the properties do not say
+    /// which of the two is meant and the sequence is not judged (convention U7).
+    fn selector(&self) -> Option<char> {
         self.inter.last().copied()
     }
 
+    fn multi(&mut self, last_wins: Option<F>) -> Option<F> {
+        if self.inter.len() > 1 {
+            if last_wins.is_some() {
+                self.unspecified = true;
+                return last_wins;
+            }
+            return None;
+        }
+        last_wins
+    }
+
     fn esc_dispatch(&mut self, c: char) -> Option<F> {
+        let r = self.esc_table(c);
+        self.multi(r)
+    }
+
+    fn esc_table(&mut self, c: char) -> Option<F> {
         match (self.selector(), c) {
             // a 7-bit ESC Fe acts exactly like its 8-bit C1 counterpart
             (None, c) if ('@'..='_').contains(&c) => {
@@ -610,6 +626,11 @@ impl PModel {
     }
 
     fn csi_dispatch(&mut self, c: char) -> Option<F> {
+        let r = self.csi_table(c);
+        self.multi(r)
+    }
+
+    fn csi_table(&mut self, c: char) -> Option<F> {
         let p0 = self.p(0);
         let sel = self.selector();
         if c != 'm' && self.params.iter().any(|p| p.len() > 1) {
